@@ -86,6 +86,45 @@ inline std::string desc_str(const Descriptor *d, bool gallina = false) {
   return s.empty() ? "-" : s;
 }
 
+// ---- descriptor -> protobuf text format (fields of a FrameFormat), for generated overrides.proto
+class ProtoPrinter : public FieldDescriptorVisitor {
+ public:
+  bool Descend() const { return false; }
+  std::string Str() const { return m_out.str(); }
+  void Visit(const BoolFieldDescriptor*) { Simple("BOOL"); }
+  void Visit(const IPV4FieldDescriptor*) { Simple("IPV4"); }
+  void Visit(const IPV6FieldDescriptor*) { Simple("IPV6"); }
+  void Visit(const MACFieldDescriptor*) { Simple("MAC"); }
+  void Visit(const UIDFieldDescriptor*) { Simple("UID"); }
+  void Visit(const StringFieldDescriptor *d) {
+    m_out << "field { type: STRING name: \"f\" min_size: " << d->MinSize() << " max_size: " << d->MaxSize() << " } ";
+  }
+  void Visit(const UInt8FieldDescriptor*) { Simple("UINT8"); }
+  void Visit(const UInt16FieldDescriptor*) { Simple("UINT16"); }
+  void Visit(const UInt32FieldDescriptor*) { Simple("UINT32"); }
+  void Visit(const UInt64FieldDescriptor*) { Simple("UINT64"); }
+  void Visit(const Int8FieldDescriptor*) { Simple("INT8"); }
+  void Visit(const Int16FieldDescriptor*) { Simple("INT16"); }
+  void Visit(const Int32FieldDescriptor*) { Simple("INT32"); }
+  void Visit(const Int64FieldDescriptor*) { Simple("INT64"); }
+  void Visit(const FieldDescriptorGroup *d) {
+    m_out << "field { type: GROUP name: \"g\" min_size: " << d->MinBlocks();
+    if (d->MaxBlocks() != FieldDescriptorGroup::UNLIMITED_BLOCKS) m_out << " max_size: " << d->MaxBlocks();
+    m_out << " ";
+    for (unsigned int i = 0; i < d->FieldCount(); ++i) d->GetField(i)->Accept(this);
+    m_out << "} ";
+  }
+  void PostVisit(const FieldDescriptorGroup*) {}
+ private:
+  std::ostringstream m_out;
+  void Simple(const char *t) { m_out << "field { type: " << t << " name: \"f\" } "; }
+};
+inline std::string proto_fields(const Descriptor *d) {
+  ProtoPrinter p;
+  d->Accept(&p);
+  return p.Str();
+}
+
 // ---- text -> descriptor (synthetic descriptors of the generator) ----
 struct DescParser {
   const std::string &s;
